@@ -85,6 +85,41 @@ def run_shard(sh, ctx):
 			g['key'] = hid if hid else 'empty-id-replaced'
 		dbdir = w.write_db(base / 'db', with_extra=False)
 		dbids = [g['key'] for g in w.genomes]
+		# ---- same names, different genomes: a second directory holding other genomes under the SAME file names -------------------
+		from vf.oracles import sigdef as S_, jaccard as J_
+		from vf.oracles.fasta import write_fasta as wf_
+		dir2 = base / 'genomes_v2'
+		dir2.mkdir()
+		twins = []
+		for it in G.items:
+			c2 = _cli.rand_genome(rng, base=it['contigs'], rate=0.1) if len(b''.join(it['contigs'])) > 50 else _cli.rand_genome(rng)
+			wf_(dir2 / it['name'], c2, gz=it['name'].endswith('.gz'))
+			twins.append(c2)
+		for trial in range(2):
+			idx = rng.sample(range(n), rng.randint(1, min(n, 6)))
+			explicit = rng.random() < 0.5
+			eff = (k, prefix) if explicit else (11, 'ATGAC')
+			out = base / f'out_twins_{trial}.csv'
+			if trial == 0:
+				cmd = ['dist', '-o', out, '--no-progress'] + (['-k', k, '-p', prefix] if explicit else []) + sum([['-q', G.items[i]['path']] for i in idx], []) + sum([['-r', dir2 / G.items[i]['name']] for i in idx], [])
+			else:
+				lf = G.listfile(idx, f'twins_{rnd}.txt')
+				cmd = ['dist', '-o', out, '--no-progress'] + (['-k', k, '-p', prefix] if explicit else []) + ['--ql', lf, '--qdir', G.dir, '--rl', lf, '--rdir', dir2]
+			code, so, se, exc = clidrv.run_inproc(cmd)
+			labels = [G.items[i]['label'] for i in idx]
+			w_ = dict(case='same file names, different genomes on the two sides', args=[str(a) for a in cmd][:30], labels=labels, stderr=se[-200:], exc=exc)
+			ctx.case(('twins', trial, eff, [G.items[i]['name'] for i in idx]), nontrivial=True)
+			ctx.count('same_labels_different_genomes_runs')
+			if code != 0:
+				ctx.violation('command-fails', f'gambit dist exited {code}: {se[-200:]} {exc}', w_)
+				continue
+
+			def dtw(a, b):
+				sa = set(S_.signature(eff[0], eff[1].encode(), G.items[idx[a]]['contigs']))
+				sb = set(S_.signature(eff[0], eff[1].encode(), twins[idx[b]]))
+				s_, u_ = J_.dist_su(sa, sb)
+				return float(np.uint32(J_.expected_bits(s_, u_)).view('f4'))
+			check_matrix(ctx, open(out, newline='').read(), labels, labels, dtw, w_, 'dist files/files with equal labels')
 		for qch in QCH:
 			for rch in RCH:
 				for trial in range(2 if sh['nrounds'] > 2 else 1):
@@ -178,7 +213,7 @@ def finalize(merged, tier, seed, inconclusive):
 		for r in RCH:
 			if c.get(f'channels:{q}/{r}', 0) == 0:
 				inconclusive.append(f'channel combination never run: {q}/{r}')
-	for n in ['params:explicit', 'params:inferred-or-default', 'cores:16', 'cores:None', 'square_vs_both_sides']:
+	for n in ['params:explicit', 'params:inferred-or-default', 'cores:16', 'cores:None', 'square_vs_both_sides', 'same_labels_different_genomes_runs']:
 		if c.get(n, 0) == 0:
 			inconclusive.append(f'class never observed: {n}')
 	return dict(exhaustive=False)
